@@ -1380,6 +1380,10 @@ func libTransfer(fn *ssa.Function, args []fval) (fval, error) {
 			before, after, found := strings.Cut(a, b)
 			return fval{tuple: []fval{{k: constant.MakeString(before), t: types.Typ[types.String]}, {k: constant.MakeString(after), t: types.Typ[types.String]}, {k: constant.MakeBool(found), t: boolT}}}, nil
 		}
+	case "strings.Compare":
+		if a, b, ok := twoStrings(args); ok {
+			return fval{k: constant.MakeInt64(int64(strings.Compare(a, b))), t: types.Typ[types.Int]}, nil
+		}
 	case "strings.ContainsAny", "strings.EqualFold":
 		if a, b, ok := twoStrings(args); ok {
 			r := strings.ContainsAny(a, b)
@@ -2329,6 +2333,70 @@ func (f *folder) iterTransfer(fn *ssa.Function, args []fval) (fval, bool, error)
 			return top, true, fmt.Errorf("maps.Collect: a pair that is not known")
 		}
 		return fval{cv: mv, t: mv.T}, true, nil
+	case "slices.SortedFunc", "slices.SortedStableFunc":
+		// doc: collects the values of seq into a new slice and sorts it with cmp. The sort is not stable: two different
+		// elements the comparator calls equal have no defined order (an error here)
+		if len(args) != 2 || (args[1].fn == nil) {
+			return top, false, nil
+		}
+		nl := &ListV{T: fn.Signature.Results().At(0).Type()}
+		st, ok := nl.T.Underlying().(*types.Slice)
+		if !ok {
+			return top, false, nil
+		}
+		bad := false
+		yield := fval{native: func(as []fval) (fval, bool) {
+			if len(as) != 1 {
+				bad = true
+				return top, false
+			}
+			ev, ok := toVal(as[0], st.Elem(), f.c)
+			if !ok {
+				bad = true
+				return top, false
+			}
+			nl.Elems = append(nl.Elems, ev)
+			return yes, true
+		}}
+		if err := run(args[0], yield); err != nil {
+			return top, true, err
+		}
+		if bad {
+			return top, true, fmt.Errorf("%s: an element that is not known", name)
+		}
+		cmpf := args[1]
+		shared := f.heap
+		if cmpf.bind != nil && cmpf.heap != nil {
+			shared = cmpf.heap
+		}
+		var cerr error
+		less := func(a, b Val) int {
+			r, err := f.foldCallEnv(cmpf.fn, []fval{fromVal(a), fromVal(b)}, cmpf.bind, shared)
+			if err != nil || r.k == nil || r.k.Kind() != constant.Int {
+				if cerr == nil {
+					cerr = fmt.Errorf("%s: the comparator does not fold: %v", name, err)
+				}
+				return 0
+			}
+			v, _ := constant.Int64Val(r.k)
+			if v == 0 && a.vstr() != b.vstr() && cerr == nil && name == "slices.SortedFunc" {
+				cerr = fmt.Errorf("%s: two different elements compare equal: their order is not defined", name)
+			}
+			return int(v)
+		}
+		// insertion sort (stable), every comparison folded
+		for i := 1; i < len(nl.Elems); i++ {
+			for j := i; j > 0 && less(nl.Elems[j-1], nl.Elems[j]) > 0; j-- {
+				nl.Elems[j-1], nl.Elems[j] = nl.Elems[j], nl.Elems[j-1]
+			}
+			if cerr != nil {
+				return top, true, cerr
+			}
+		}
+		if cerr != nil {
+			return top, true, cerr
+		}
+		return fval{cv: nl, t: nl.T}, true, nil
 	case "slices.Collect", "slices.AppendSeq":
 		seqArg := 0
 		nl := &ListV{T: fn.Signature.Results().At(0).Type()}
